@@ -269,7 +269,7 @@ impl Check for C01 {
         case_strategy(tier.pick(Limits::quick(), Limits::thorough()), 8)
     }
     fn num_cases(&self, tier: Tier) -> u64 {
-        tier.pick(3000, 30000)
+        tier.pick(3000, 12000)
     }
     fn builtin_corpus(&self) -> Vec<Case> {
         // element counts beyond 2^16 (see gen::wide_cfgs), three reports each incl. extreme buckets
